@@ -103,6 +103,27 @@ impl EventGen for DefaultsElement {
     }
 }
 
+/// Is this `x` / `y` value of a `<text>` element a list of lengths ("10 20 30")
+/// or a length with a unit ("10mm", "50%")? Both are valid SVG, but neither is a
+/// single position in user units.
+fn is_svg_only_text_position(value: &str) -> bool {
+    let unit_of = |v: &str| {
+        split_unit(v)
+            .ok()
+            .map(|(_, unit)| unit)
+            .filter(|unit| unit.chars().all(|c| c.is_ascii_alphabetic() || c == '%'))
+    };
+    let items: Vec<_> = value
+        .split(|c: char| c == ',' || c.is_ascii_whitespace())
+        .filter(|v| !v.is_empty())
+        .collect();
+    match items.as_slice() {
+        [] => false,
+        [single] => unit_of(single).is_some_and(|unit| !unit.is_empty()),
+        list => list.iter().all(|v| unit_of(v).is_some()),
+    }
+}
+
 /// Container will be used for many elements which contain other elements,
 /// but have no independent behaviour, such as defs, linearGradient, etc.
 #[derive(Debug, Clone)]
@@ -129,7 +150,19 @@ impl EventGen for Container {
                     break;
                 }
             }
-            if let (true, Some(text)) = (self.0.is_graphics_element(), &inner_text) {
+            // A <text> positioned as only plain SVG allows (per-glyph lists, lengths
+            // with units) can't be re-positioned as svgdx text: it stays as written.
+            let svg_only_text = self.0.name == "text"
+                && ["x", "y"].iter().any(|a| {
+                    self.0
+                        .get_attr(a)
+                        .is_some_and(|v| is_svg_only_text_position(&v))
+                });
+            if let (true, false, Some(text)) = (
+                self.0.is_graphics_element(),
+                svg_only_text,
+                &inner_text,
+            ) {
                 let mut el = self.0.clone();
                 el.set_attr("text", text);
                 if let Some((start, _end)) = self.0.event_range {
